@@ -16,7 +16,7 @@ QUICK = {'budget_s': 40}
 THOROUGH = {'budget_s': 480}
 EXPECTED_PROBES = ['body_ended_before_deadline', 'body_running_past_deadline', 'ended_in_poll_window', 'late_action_by_abandoned_body']
 
-PROF = gen.profile(max_nodes=8, max_depth=3, w_phase=10, w_group=5, w_subtest=2, w_branch=0, w_ckpt_fail=0, w_ckpt_diag=0, p_fault_beh=150, p_timeout=500, p_ambiguous_dur=350, late=600, p_dur=300, p_attach=400, p_logs=500, p_plug=150, p_profile=200)
+PROF = gen.profile(max_nodes=8, max_depth=3, w_phase=10, w_group=5, w_subtest=2, w_branch=0, w_ckpt_fail=0, w_ckpt_diag=0, p_fault_beh=150, p_timeout=500, p_ambiguous_dur=350, late=600, p_dur=300, p_attach=400, p_logs=500, p_plug=150, p_profile=200, p_monitor=200, p_monitor_hang=250)
 
 
 EXPECTED_PROBES += ['kill_before_start', 'kill_during_body', 'kill_after_body', 'kill_in_start_window']
